@@ -182,6 +182,8 @@ func c17RandomCfg(r *rand.Rand, documented bool) c17Wire {
 		g := "g.yaml"
 		w.Given = []c17WRef{{D: 5, F: &g}}
 	}
+	w.Dirs[4].Link = r.Intn(4) == 0
+	w.Dirs[5].Link = r.Intn(4) == 0
 	cf := c17ComposeFileValues[r.Intn(len(c17ComposeFileValues))]
 	kv := []string{"COMPOSE_FILE=" + cf.v}
 	if cf.sep != "" && r.Intn(4) > 0 {
